@@ -83,6 +83,10 @@ P = {
   "Generated worlds (1-3 non-poll Servers, Conns with gated calls in flight and blocked stream readers, a Transport with gated calls and an idle pooled connection, a Client with a down target, waiting callers and the target recovering 0-101 ms before Client.Close) closed 1-3 times each in a drawn permutation or concurrently. Oracle: Close return values, Listen returns, every caller blocked in the library returns, 0 open endpoints on both sides of the counting network and no library-started goroutine left (goroutine-profile diff) within 10 s.",
   "Trusted: counting network, goroutine probe. Poll servers excluded by the statement.",
   "property-based testing (rapid) with resource-leak oracle (endpoint counter + goroutine diff)"),
+ "C12": ("exploration",
+  "Differential testing over the configuration space: each generated workload (calls to all handler shapes in every call form, failing calls, unknown methods, pings, stream rounds, sizes up to 200 KB plus one message larger than every configured buffer; sequential or 2-4 workers) is run on a reference configuration and on a drawn or enumerated tuple of network x TLS x header encoder x body codec (typed message per codec) x server modes x client modes x buffer sizes x spelling of each end (Listen/Dial by name, Options by name / constructor / both where the name must win, Transport, Client); the transcripts (per-item outcome and reply digest or error text, multiset of handler executions) must be equal; not completing a workload that the reference completes is a difference. Two unrepaired findings in dependencies (TLS with poll; ws with poll) are listed in known_findings.json and excluded from the generators with counters.",
+  "Trusted: reference configuration (frame link, default header, json body). Real sockets use kernel-assigned loopback ports plus an identity probe because the library listens with SO_REUSEPORT. Content restricted to [a-z0-9] for xml.",
+  "differential property-based testing (rapid) against a reference configuration + enumerated sample of the configuration matrix"),
 }
 
 NOT_BUILT_REASON = "check not built yet in this session; see DESIGN.md section 6 for the planned generated check"
